@@ -9,4 +9,6 @@ for p in "$@"; do
   echo "$p exit=$? :: $out"
 done
 git -C /repo checkout -- . 
+# regenerate coq/Gen from the restored tree so that no file derived from the mutated source is left behind
+(cd /verif && python3 -c "from lib import core; core.translate()" >/dev/null)
 git -C /repo status --short | head -3
